@@ -12,16 +12,18 @@ Specification vocabulary (defined in `Dblib/Lemmas/C16Parse.lean`, digit theory 
 * `negText i`           `"-"` for `i < 0`, else empty;
 * `IsSign sg`           `sg` is empty, `"+"` or `"-"`;  `signVal sg` = −1 for `"-"`, else 1;
 * `numeralText sg I fr` `sg ++ I` followed by `"." ++ F` when `fr = some F`;  `fracOf fr` = `F` or empty;
-* `scaledValue s sg I F`= `signVal sg * ofDigits (I ++ F) * 10^(s − |F|)`  (= value × 10^s when `|F| ≤ s`);
+* `ExcessZero s F`      every fraction digit beyond the `s`-th is `0` (the numeral is representable at scale `s`);
+* `HasDigit I F`        `I` is non-empty or `F` has a non-zero digit (what `SetString` needs: `".0"` is rejected);
+* `scaledValue s sg I F`= `signVal sg * ofDigits (I ++ F.take s) * 10^(s − |F.take s|)`; by `scaledValue_exact` this
+                        is exactly value × 10^s (`|scaledValue|·10^|F| = ofDigits (I ++ F)·10^s`) under `ExcessZero s F`;
 * `CanonInt`, `CanonFrac` digits, non-empty, no leading (resp. trailing) zero unless exactly `"0"`;
-* `FitsNumeral p s u`   `u` is a numeral with at least one digit, `|F| ≤ s`, `|scaledValue| < 10^p`.
+* `FitsNumeral p s u`   `u` is a numeral with `HasDigit`, `ExcessZero s F`, `|scaledValue| < 10^p`.
 
 All theorems hold for every natural `p`, `s` (the bound 38 only matters for `c16_sanity`), every integer
 `i` and every text: they are proved by arithmetic on digit lists, nothing is enumerated.
 
-RESULT.  Everything the property demands is proved for the model EXCEPT the round trip at scale 0, which
-is false for the code as it is (`c16_roundtrip_scale0_fails`): `String` prints `<int>.0` and the repaired
-`SetString` rejects one fraction digit at scale 0.
+RESULT.  Everything the property demands is proved for the model, including the round trip at every scale
+(`SetString` drops trailing zeros of the fraction, so the `<int>.0` printed at scale 0 parses).
 -/
 import Dblib.Model.Decimal
 import Dblib.Lemmas.C16
@@ -31,41 +33,63 @@ namespace Dblib.Props.C16
 open Dblib.Decimal Dblib.Lemmas.C16
 
 /-- **C16, parsing is exact.**  A numeral — optional white space, optional sign `+`/`-`, integer digits,
-optionally a point and fraction digits (at least one digit overall), optional white space — with at most
-`s` fraction digits parses to exactly `value × 10^s` if that has at most `p` digits, and is rejected
-otherwise (more digits than the precision). -/
+optionally a point and fraction digits, optional white space — that has a digit to read (`HasDigit`) and
+no non-zero digit beyond the `s`-th fraction digit parses to exactly `value × 10^s` (`scaledValue`, exact by
+`scaledValue_exact`) if that has at most `p` digits, and is rejected otherwise (more digits than the
+precision).  In particular every numeral with at most `s` fraction digits (`c16_parse_exact_short`). -/
 theorem c16_parse_exact (p s : Nat) (ws1 ws2 sg I : Text) (frac : Option Text)
     (h1 : ∀ c ∈ ws1, isSpace c = true) (h2 : ∀ c ∈ ws2, isSpace c = true)
     (hsg : IsSign sg) (hI : AllDig I) (hF : AllDig (fracOf frac))
-    (hne : I ++ fracOf frac ≠ []) (hlen : (fracOf frac).length ≤ s) :
+    (hne : HasDigit I (fracOf frac)) (hz : ExcessZero s (fracOf frac)) :
     setString p s (ws1 ++ numeralText sg I frac ++ ws2) =
       if (scaledValue s sg I (fracOf frac)).natAbs < 10 ^ p
       then .ok (scaledValue s sg I (fracOf frac)) else .err := by
   rw [setString_numeral p s hsg hI hF
     (trimSpace_sandwich h1 h2 (fun c hc => numeral_nonspace (numeral_chars hsg hI hF hc)))]
-  exact setParts_complete p s hsg hI hF hne hlen
+  exact setParts_complete p s hsg hI hF hne hz
 
--- hypotheses satisfiable: " -012.50\t" at precision 5, scale 3 is -12500
-example : setString 5 3 ([' '] ++ numeralText ['-'] ['0', '1', '2'] (some ['5', '0']) ++ ['\t']) = .ok (-12500) := by
-  rw [c16_parse_exact 5 3 [' '] ['\t'] ['-'] ['0', '1', '2'] (some ['5', '0']) (by decide) (by decide)
+-- hypotheses satisfiable: " -012.5000\t" at precision 5, scale 3 is -12500 (two fraction digits beyond the scale are zeros)
+example : setString 5 3 ([' '] ++ numeralText ['-'] ['0', '1', '2'] (some ['5', '0', '0', '0', '0']) ++ ['\t']) = .ok (-12500) := by
+  rw [c16_parse_exact 5 3 [' '] ['\t'] ['-'] ['0', '1', '2'] (some ['5', '0', '0', '0', '0']) (by decide) (by decide)
     (by decide) (by decide) (by decide) (by decide) (by decide)]
   decide
 
+/-- the property's clause literally: a numeral with an integer digit and no more fraction digits than the
+scale parses to `± ofDigits (I ++ F) × 10^(s − |F|)`, i.e. exactly that number, if it fits the precision -/
+theorem c16_parse_exact_short (p s : Nat) (ws1 ws2 sg I : Text) (frac : Option Text)
+    (h1 : ∀ c ∈ ws1, isSpace c = true) (h2 : ∀ c ∈ ws2, isSpace c = true)
+    (hsg : IsSign sg) (hI : AllDig I) (hF : AllDig (fracOf frac))
+    (hne : I ≠ []) (hlen : (fracOf frac).length ≤ s)
+    (hfit : ofDigits (I ++ fracOf frac) * 10 ^ (s - (fracOf frac).length) < 10 ^ p) :
+    setString p s (ws1 ++ numeralText sg I frac ++ ws2) =
+      .ok (signVal sg * ((ofDigits (I ++ fracOf frac) * 10 ^ (s - (fracOf frac).length) : Nat) : Int)) := by
+  rw [c16_parse_exact p s ws1 ws2 sg I frac h1 h2 hsg hI hF (Or.inl hne) (excessZero_short s _ hlen),
+    scaledValue_short s sg I _ hlen, signVal_natAbs, if_pos hfit]
+
+example : setString 5 2 ([] ++ numeralText [] ['7'] (some ['5']) ++ [' ']) = .ok 750 := by
+  rw [c16_parse_exact_short 5 2 [] [' '] [] ['7'] (some ['5']) (by decide) (by decide) (by decide) (by decide)
+    (by decide) (by decide) (by decide) (by decide)]
+  decide
+
 /-- **C16, only numerals are accepted and never with a different value.**  If `SetString` succeeds, the
-trimmed input is a numeral `[+-] digits [. digits]` with at least one digit and at most `s` fraction
-digits, the stored integer is exactly `value × 10^s`, and it has at most `p` digits. -/
+trimmed input is a numeral `[+-] digits [. digits]` with a digit to read and only zeros beyond the `s`-th
+fraction digit, the stored integer is exactly `value × 10^s`, and it has at most `p` digits. -/
 theorem c16_parse_sound (p s : Nat) (t : Text) (v : Int) (h : setString p s t = .ok v) :
-    ∃ sg I frac, IsSign sg ∧ AllDig I ∧ AllDig (fracOf frac) ∧ I ++ fracOf frac ≠ [] ∧
-      trimSpace t = numeralText sg I frac ∧ (fracOf frac).length ≤ s ∧
-      v = scaledValue s sg I (fracOf frac) ∧ v.natAbs < 10 ^ p := by
+    ∃ sg I frac, IsSign sg ∧ AllDig I ∧ AllDig (fracOf frac) ∧ HasDigit I (fracOf frac) ∧
+      trimSpace t = numeralText sg I frac ∧ ExcessZero s (fracOf frac) ∧
+      v = scaledValue s sg I (fracOf frac) ∧
+      v.natAbs * 10 ^ (fracOf frac).length = ofDigits (I ++ fracOf frac) * 10 ^ s ∧
+      v.natAbs < 10 ^ p := by
   unfold setString at h
   rcases splitOn_cases (trimSpace t) with ⟨_, hsp⟩ | ⟨a, b, _, _, hab, hsp⟩ | ⟨x, y, z, r, hsp⟩
   · rw [hsp] at h
-    obtain ⟨hR, hlen, sg, I, hsg, hl, hI, hne, hv, hfit⟩ := setParts_sound h
-    exact ⟨sg, I, none, hsg, hI, hR, hne, by simp [numeralText, hl], hlen, hv, hfit⟩
+    obtain ⟨hR, hz, sg, I, hsg, hl, hI, hne, hv, hfit⟩ := setParts_sound h
+    exact ⟨sg, I, none, hsg, hI, hR, hne, by simp [numeralText, hl], hz, hv,
+      hv ▸ scaledValue_exact s sg I [] hz, hfit⟩
   · rw [hsp] at h
-    obtain ⟨hR, hlen, sg, I, hsg, hl, hI, hne, hv, hfit⟩ := setParts_sound h
-    exact ⟨sg, I, some b, hsg, hI, hR, hne, by simp [numeralText, hab, hl], hlen, hv, hfit⟩
+    obtain ⟨hR, hz, sg, I, hsg, hl, hI, hne, hv, hfit⟩ := setParts_sound h
+    exact ⟨sg, I, some b, hsg, hI, hR, hne, by simp [numeralText, hab, hl], hz, hv,
+      hv ▸ scaledValue_exact s sg I b hz, hfit⟩
   · rw [hsp] at h; simp at h
 
 /-- `Cmp` is equality of precision, scale and value -/
@@ -73,20 +97,11 @@ theorem cmp_iff (p1 s1 p2 s2 : Nat) (i1 i2 : Int) :
     cmp p1 s1 i1 p2 s2 i2 = true ↔ p1 = p2 ∧ s1 = s2 ∧ i1 = i2 := by
   simp [cmp, and_assoc]
 
-/-
-**C16 round trip, full statement (does NOT hold for the code as it is, see `c16_roundtrip_scale0_fails`):**
-
-  theorem c16_roundtrip (p s : Nat) (i : Int) (hp : 1 ≤ p) (hp' : p ≤ 38) (hs : s ≤ p)
-      (hi : i.natAbs < 10 ^ p) : ∃ t, format p s i = some t ∧ setString p s t = .ok i
-
-The proved part covers every scale `1 ≤ s ≤ p` (no bound on `p` needed).  At scale 0 `String` prints
-`<int>.0` — one fraction digit — and the repaired `SetString` rejects every text with more fraction
-digits than the scale, so the round trip is an error for *every* value at scale 0.
--/
-
-/-- **C16 round trip for scales `1 ≤ s ≤ p`**: for every value with at most `p` digits, `String` does not
-panic and `SetString` of its text gives back exactly the value (hence `Cmp` = true). -/
-theorem c16_roundtrip_partial (p s : Nat) (i : Int) (hs1 : 1 ≤ s) (hs : s ≤ p) (hi : i.natAbs < 10 ^ p) :
+/-- **C16 round trip**: for every precision, every scale `0 ≤ s ≤ p` and every value with at most `p`
+digits, `String` does not panic and `SetString` of its text gives back exactly the value, so the parsed
+decimal is `Cmp`-equal to the original.  (No bound on `p` is needed; the property's domain
+`1 ≤ p ≤ 38` is the instance `c16_roundtrip_domain`.) -/
+theorem c16_roundtrip (p s : Nat) (i : Int) (hs : s ≤ p) (hi : i.natAbs < 10 ^ p) :
     ∃ t, format p s i = some t ∧ setString p s t = .ok i ∧ cmp p s i p s i = true := by
   refine ⟨_, format_eq p s i hs hi, ?_, (cmp_iff ..).2 ⟨rfl, rfl, rfl⟩⟩
   have hI := natDigits_allDig (i.natAbs / 10 ^ s)
@@ -95,32 +110,25 @@ theorem c16_roundtrip_partial (p s : Nat) (i : Int) (hs1 : 1 ≤ s) (hs : s ≤ 
   have htext : negText i ++ natDigits (i.natAbs / 10 ^ s) ++ '.' :: fracText s i.natAbs =
       numeralText (negText i) (natDigits (i.natAbs / 10 ^ s)) (some (fracText s i.natAbs)) := rfl
   have hval : scaledValue s (negText i) (natDigits (i.natAbs / 10 ^ s)) (fracText s i.natAbs) = i := by
-    rw [scaledValue, reassemble s _ hs1, negText_val]
+    rw [scaledValue, reassemble s _, negText_val]
   rw [htext, setString_numeral p s hsg hI hF
       (trimSpace_id (fun c hc => numeral_nonspace (numeral_chars hsg hI hF hc)))]
   simp only [fracOf]
-  rw [setParts_complete p s hsg hI (fracText_allDig s i.natAbs) (by simp [natDigits_ne_nil]) (fracText_len s _ hs1)]
+  rw [setParts_complete p s hsg hI (fracText_allDig s i.natAbs) (Or.inl (natDigits_ne_nil _))
+    (fracText_excessZero s _)]
   simp only [hval, hi, if_true]
 
+/-- the round trip on the property's domain, as stated there -/
+theorem c16_roundtrip_domain (p s : Nat) (i : Int) (_hp : 1 ≤ p) (_hp' : p ≤ 38) (hs : s ≤ p)
+    (hi : i.natAbs < 10 ^ p) : ∃ t, format p s i = some t ∧ setString p s t = .ok i :=
+  let ⟨t, h1, h2, _⟩ := c16_roundtrip p s i hs hi
+  ⟨t, h1, h2⟩
+
 example : ∃ t, format 5 2 (-12345) = some t ∧ setString 5 2 t = .ok (-12345) ∧ cmp 5 2 (-12345) 5 2 (-12345) = true :=
-  c16_roundtrip_partial 5 2 (-12345) (by decide) (by decide) (by decide)
+  c16_roundtrip 5 2 (-12345) (by decide) (by decide)
 
-/-- **The round trip fails at scale 0** (the model transcribes the current code): for every precision and
-every value, the text printed by `String` at scale 0 is rejected by `SetString`. -/
-theorem c16_roundtrip_scale0_fails (p : Nat) (i : Int) (hi : i.natAbs < 10 ^ p) :
-    ∃ t, format p 0 i = some t ∧ setString p 0 t = .err := by
-  refine ⟨_, format_eq p 0 i (Nat.zero_le _) hi, ?_⟩
-  have hI := natDigits_allDig (i.natAbs / 10 ^ 0)
-  have hsg := negText_sign i
-  have hfr : fracText 0 i.natAbs = ['0'] := rfl
-  have htext : negText i ++ natDigits (i.natAbs / 10 ^ 0) ++ '.' :: fracText 0 i.natAbs =
-      numeralText (negText i) (natDigits (i.natAbs / 10 ^ 0)) (some ['0']) := by rw [hfr]; rfl
-  have hF : AllDig (fracOf (some ['0'])) := by decide
-  rw [htext, setString_numeral p 0 hsg hI hF
-      (trimSpace_id (fun c hc => numeral_nonspace (numeral_chars hsg hI hF hc)))]
-  simp [setParts, fracOf, isDig]
-
-example : format 5 0 7 = some ['7', '.', '0'] ∧ setString 5 0 ['7', '.', '0'] = .err := by
+-- scale 0 (the former defect): "7.0" parses back to 7
+example : format 5 0 7 = some ['7', '.', '0'] ∧ setString 5 0 ['7', '.', '0'] = .ok 7 := by
   constructor
   · rw [format_eq 5 0 7 (by decide) (by decide)]; simp [negText, natDigits_lt, fracText, fixed, trimRight0, orZero, digChar]
   · decide
@@ -163,8 +171,8 @@ theorem c16_rejects_unrepresentable (p s : Nat) (t : Text) (h : ¬ FitsNumeral p
   cases hr : setString p s t with
   | err => rfl
   | ok v =>
-    obtain ⟨sg, I, frac, h1, h2, h3, h4, h5, h6, h7, h8⟩ := c16_parse_sound p s t v hr
-    exact absurd ⟨sg, I, frac, h1, h2, h3, h4, h5, h6, h7 ▸ h8⟩ h
+    obtain ⟨sg, I, frac, h1, h2, h3, h4, h5, h6, h7, _, h9⟩ := c16_parse_sound p s t v hr
+    exact absurd ⟨sg, I, frac, h1, h2, h3, h4, h5, h6, h7 ▸ h9⟩ h
 
 /-- a second decimal point ⇒ error -/
 theorem c16_rejects_second_point (p s : Nat) (t x y z : Text)
@@ -181,18 +189,24 @@ theorem c16_rejects_second_point (p s : Nat) (t x y z : Text)
 example : setString 5 2 ['1', '.', '2', '.', '3'] = .err :=
   c16_rejects_second_point 5 2 _ ['1'] ['2'] ['3'] (by decide)
 
-/-- more fraction digits than the scale ⇒ error (also when the extra digits are zeros) -/
+/-- a non-zero digit beyond the `s`-th fraction digit ⇒ error (the value is not representable at scale
+`s`); by `c16_parse_exact` this is the only way a long fraction of digits is rejected -/
 theorem c16_rejects_long_fraction (p s : Nat) (t L F : Text) (h : trimSpace t = L ++ '.' :: F)
-    (hL : NoDot L) (hF : NoDot F) (hlen : s < F.length) : setString p s t = .err := by
+    (hL : NoDot L) (hF : NoDot F) (hex : ¬ ExcessZero s F) : setString p s t = .err := by
   unfold setString
   rw [h, splitOn_append _ hL, splitOn_noDot hF]
   simp only [setParts]
   by_cases hany : (F.any fun c => !isDig c) = true
   · rw [if_pos hany]
-  · rw [if_neg hany, if_pos hlen]
+  · have hlen : s < (trimRight0 F).length :=
+      Nat.not_le.1 (fun hle => hex ((trimRight0_len_iff s F).1 hle))
+    rw [if_neg hany, if_pos hlen]
 
 example : setString 5 2 ['1', '.', '2', '3', '4'] = .err :=
   c16_rejects_long_fraction 5 2 _ ['1'] ['2', '3', '4'] (by decide) (by decide) (by decide) (by decide)
+
+-- ... while zeros beyond the scale are accepted: "1.2300" at scale 2 is 1.23
+example : setString 5 2 ['1', '.', '2', '3', '0', '0'] = .ok 123 := by decide
 
 /-- a fraction that contains anything but digits (a sign, a letter, a space) ⇒ error -/
 theorem c16_rejects_bad_fraction (p s : Nat) (t L F : Text) (c : Char) (h : trimSpace t = L ++ '.' :: F)
@@ -228,19 +242,18 @@ example : setString 5 2 [' ', '1', 'e', '2'] = .err :=
 theorem c16_rejects_too_many_digits (p s : Nat) (ws1 ws2 sg I : Text) (frac : Option Text)
     (h1 : ∀ c ∈ ws1, isSpace c = true) (h2 : ∀ c ∈ ws2, isSpace c = true)
     (hsg : IsSign sg) (hI : AllDig I) (hF : AllDig (fracOf frac))
-    (hne : I ++ fracOf frac ≠ []) (hlen : (fracOf frac).length ≤ s)
-    (hbig : 10 ^ p ≤ ofDigits (I ++ fracOf frac) * 10 ^ (s - (fracOf frac).length)) :
+    (hne : HasDigit I (fracOf frac)) (hz : ExcessZero s (fracOf frac))
+    (hbig : 10 ^ p ≤ (scaledValue s sg I (fracOf frac)).natAbs) :
     setString p s (ws1 ++ numeralText sg I frac ++ ws2) = .err := by
-  rw [c16_parse_exact p s ws1 ws2 sg I frac h1 h2 hsg hI hF hne hlen, scaledValue_natAbs,
-    if_neg (Nat.not_lt.2 hbig)]
+  rw [c16_parse_exact p s ws1 ws2 sg I frac h1 h2 hsg hI hF hne hz, if_neg (Nat.not_lt.2 hbig)]
 
 example : setString 3 2 ([] ++ numeralText [] ['1', '0'] (some ['0']) ++ []) = .err :=
   c16_rejects_too_many_digits 3 2 [] [] [] ['1', '0'] (some ['0']) (by decide) (by decide) (by decide)
     (by decide) (by decide) (by decide) (by decide) (by decide)
 
--- no digit at all: the empty text, a lone point, a lone sign
+-- no digit to read: the empty text, a lone point, a lone sign, and ".0" (the fraction is trimmed to nothing)
 example : setString 5 2 [] = .err ∧ setString 5 2 ['.'] = .err ∧ setString 5 2 ['-'] = .err ∧
-    setString 5 2 [' ', '+', '.', ' '] = .err := by decide
+    setString 5 2 [' ', '+', '.', ' '] = .err ∧ setString 5 2 ['.', '0'] = .err := by decide
 
 /-- **C16, sanity**: `NewDecimal` accepts exactly `0 ≤ s ≤ p ≤ 38` (all integers `p`, `s`). -/
 theorem c16_sanity (p s : Int) : newOk p s = true ↔ (0 ≤ s ∧ s ≤ p ∧ p ≤ 38) := by
